@@ -36,6 +36,13 @@ static std::string build(const Req &r, bool &valid, bool &after_target)
 		else s += h[i].first + ": " + h[i].second + "\r\n";
 	}
 	s += "\r\n";
+	if (!valid && r.defect != 12 && r.defect != 13 && (r.b % 4) == 3) {
+		// the same defective request with bare LF line ends inside the head (only the last line ends in CRLF CRLF): http parsers
+		// accept that, and then request line and header lines reach the server in one piece
+		std::string t; size_t end = s.size() - 4;
+		for (size_t i = 0; i < end; i++) { if (s[i] == '\r' && s[i + 1] == '\n') { t += '\n'; i++; } else t += s[i]; }
+		s = t + "\r\n\r\n";
+	}
 	if (r.defect == 13) { // one corrupted byte inside the request line
 		size_t eol = s.find("\r\n");
 		size_t pos = (size_t)r.a % eol;
